@@ -11,6 +11,7 @@ def make_ctx(sys_, ins, outs, model, **kw):
     c = types.SimpleNamespace()
     c.sys = sys_
     c.sim = sys_.getSimulator()
+    core.bystander()            # another system gets its simulator and runs in between: must not disturb this one
     c.in_names = [n for n, _ in ins]
     c.free = [w for _, w in ins]
     c.out_names = [n for n, _ in outs]
